@@ -268,7 +268,7 @@ package client
 //@     invariant -1 <= rangeindex && rangeindex < len(p) || rangeindex == -1
 //@     invariant 0 <= codeIdx && (codeIdx < len(ret) || (codeIdx == len(ret) && rangeindex == len(p)-1)) && 1 <= code && code <= 254
 //@     invariant refOf(ret) == refOf(preloop(ret)) || sinceLoop(ret)
-//@     invariant isfresh(ret)
+//@     invariant isfresh(ret) && len(ret) >= 1
 //@     modifies ret
 //@     decreases len(p) - rangeindex
 
